@@ -2,6 +2,7 @@ package checks
 
 import (
 	"fmt"
+	"time"
 
 	"verifharness/internal/core"
 	"verifharness/internal/fixture"
@@ -108,6 +109,40 @@ func (c *histCheck) RunCase(w *core.Worker, idx int, seed uint64, res *core.Case
 					}
 				}
 			}
+		}
+		if c.id == "C02" && s > 0 && rng.Chance(1, 6) {
+			// a transaction that is applied and then cancelled (every third of them runs into its timeout instead): the
+			// intended store must be what the last accepted versions say, as if it had never been there
+			id := run.nextID() + "x"
+			viaTimeout := rng.Chance(1, 3)
+			to := time.Hour
+			if viaTimeout {
+				to = 40 * time.Millisecond
+			}
+			out := run.set(id, step, nil, to, false)
+			run.canon = append(run.canon, "ROLLED-BACK "+stepString(step))
+			if out.convErr != nil || out.panicked || out.err != nil || out.rejected {
+				res.Inconclusive("hist/set-error", "valid request failed: conv=%v err=%v rejected=%v\n  step: %s", out.convErr, out.err, out.rejected, stepString(step))
+				break
+			}
+			if viaTimeout {
+				if !waitFor(10*time.Second, func() bool { id, _ := run.ds.VerifOpenTransaction(); return id == "" }) {
+					res.Inconclusive("C02/timeout-not-observed", "transaction %s still registered 10 s after a 40 ms timeout", id)
+					break
+				}
+			} else {
+				var cerr error
+				if apiCall(res, "TransactionCancel", func() { cerr = run.ds.TransactionCancel(run.ctx, id) }) || cerr != nil {
+					res.Inconclusive("C02/cancel-failed", "%v", cerr)
+					break
+				}
+			}
+			res.Count("transactions_rolled_back", 1)
+			run.checkIntended(fmt.Sprintf("after step %d [%s] was applied and rolled back (timeout=%v)", s, stepString(step), viaTimeout))
+			if len(res.Findings) > 0 {
+				break
+			}
+			continue
 		}
 		out, ok := run.commit(step)
 		if !ok {
